@@ -4,8 +4,12 @@
 Require Extraction.
 Require Import ExtrOcamlBasic.
 From Coq Require Import ZArith List.
-From LasV Require Import Lib.Base Lib.Layout Model.Las Model.LasSpec Model.LasDest Model.AppendCap.
+(* Round 6: guarded_rewrite (the in-place header rewrite at close, whatever the caller did to the session's own header: Model/LasEnd.v, theorems
+   C19_own_header_...), arun_ops (an appender's calls with close() among them: theorems C06_history_with_closes ...) with the executable twins
+   aopen_f / aclose_t of Model/LasFast.v. *)
+From LasV Require Import Lib.Base Lib.Layout Model.Las Model.LasSpec Model.LasFast Model.LasDest Model.AppendCap Model.LasEnd.
 Extraction Language OCaml.
 Extraction "../ocaml/c06/model.ml"
   Z.add Z.mul Z.sub Z.div_eucl Z.compare Z.of_nat Z.to_nat
-  takes_more max_point_count dest_image apply_dop overwrite_ops.
+  takes_more max_point_count dest_image apply_dop overwrite_ops
+  guarded_rewrite arun_ops aopen_f aclose_t apoints.
